@@ -407,7 +407,7 @@ theorem rootCloseImpl_sim {c : Conn} {s : Spec} (h : Sim c s) {t : Nat} (ht : s.
     c.rootCloseImpl t b = (({ c with db := c.db.rollback } : Conn).endedRoot t, .ok) := by
   have hact : c.act t = true := (h.rootOk t ht).2.2
   have hri : c.rollbackImpl = ({ c with db := c.db.rollback }, .ok) := by
-    simp [Conn.rollbackImpl, h.dbapi, dbapiCall_nofault _ _ _ h.nofault]
+    simp [Conn.rollbackImpl, h.dbapi, dbapiCall_nofault _ _ _ h.nofault, DB.skipsRollback, h.noauto]
   have h2 := act_root_after_cancel h ht c.db.rollback
   have htr : ({ c with db := c.db.rollback } : Conn).cancelNested.transaction = some t := by
     have hch1 : ChainOk ({ c with db := c.db.rollback } : Conn)
